@@ -14,6 +14,8 @@ EXPLANATION = (
     "minimum) under the guard estimate > min.n. R10-sketch-always-fed: cms.add(&item) is executed on every path before anything else."
     " The known-key arm increments the exact counter by exactly one and re-keys the tree entry from n-1 to n. Because displacement decisions use the sketch's return value, C02's rules are run as well."
 )
+from .common import NEW_WRITERS_NOTE as _NWN
+EXPLANATION = EXPLANATION + _NWN % "10"
 NOT_DECIDED = "the ranking-quality clause (an element is missing only if k others are within the sketch error E)"
 ASSUMPTIONS = ["BTreeSet::iter().next() yields the minimum under Ord", "HashMap/BTreeSet insert/remove act on exactly the given key"]
 
@@ -26,6 +28,8 @@ def mentions_estimate(t):
 
 
 def run(ctx):
+    from .common import check_new_writers
+    check_new_writers(ctx, "R10-new-writers", ['topk::cmsheap::CMSHeap'])
     prog = ctx.prog
     add = ctx.anchor(CH + "::add")
     new = ctx.anchor(CH + "::new")
